@@ -95,7 +95,7 @@ def norm_cmp(e, render=None):
         y = x
         while is_node(y) and y["k"] == "Cast":
             y = y["e"]
-        if is_node(y) and y.get("val") is not None and (y["k"] != "Ref" or y.get("rk") not in ("local", "param")) and \
+        if is_node(y) and y.get("val") is not None and (y["k"] != "Ref" or y.get("rk") != "param") and \
                 isinstance(y["val"], int) and not isinstance(y["val"], bool):
             return str(y["val"])
         return render(x)
@@ -353,8 +353,9 @@ def lvalue_dep(l):
 MODE_READ, MODE_WRITE = "Reading", "Writing"
 
 
-def iterator_loop(s):
-    """for (auto it = c.begin(); it != c.end(); ++it) whose body never steps `it` -> the node c, else None"""
+def iterator_loop(s, resolve=None):
+    """for (auto it = c.begin(); it != c.end(); ++it) whose body never steps `it` -> the node c, else None.  `resolve` maps a
+    reference to a local that is defined once to its initialiser (`const auto last = c.end();` hoisted in front of the loop)"""
     if s.get("k") != "For" or not is_node(s.get("init")) or not is_node(s.get("cond")) or not is_node(s.get("inc")):
         return None
     init, cond, inc = s["init"], s["cond"], s["inc"]
@@ -384,6 +385,8 @@ def iterator_loop(s):
     if is_it(r):
         l, r = r, l
     r = peel(r)
+    if resolve is not None and is_node(r) and r["k"] == "Ref":
+        r = peel(resolve(r))
     if not (is_it(l) and is_node(r) and r["k"] == "Call" and r.get("short") in ("end", "cend") and is_node(r.get("recv"))
             and show(r["recv"]) == show(cont)):
         return None
@@ -545,6 +548,10 @@ def counted_loop(s):
     return bound
 
 
+import re as _re
+_re_idx = _re.compile(r"\[\$i\d+\]")
+
+
 class Flow:
     """Subclass and override the on_* hooks.  run() drives the analysis of one function."""
 
@@ -556,9 +563,27 @@ class Flow:
         self.partition = True
         self.loop_stack = []  # canonical descriptions of the loops enclosing the node being visited
         self.loop_cond_keys = []  # for canonical counted loops: the guard key of the loop condition (it is the loop, not a gate)
+        self._defs = None  # local id -> initialiser, for locals defined once (lazily)
         self._expander = None  # renders loop bounds with the locals that are defined once replaced by their initialiser
         self._range_sized = None  # id(RangeFor) -> rendering of the count its container was resized to just before
         self.exits = []  # (kind, node, state) for every return / fall-off-end, final pass only
+
+    def _single_def(self, ref):
+        """initialiser of a local that is defined once and never reassigned, else the reference itself"""
+        if self._defs is None:
+            body = self.fn.get("body") or {}
+            assigned = set()
+            for n in walk(body):
+                t = n["l"] if n["k"] == "Assign" else (n["e"] if n["k"] == "Unary" and n["op"] in ("++", "--") else None)
+                if is_node(t) and t["k"] == "Ref":
+                    assigned.add(t.get("id"))
+            self._defs = {}
+            for n in walk(body):
+                if n["k"] == "Decl":
+                    for v in n.get("vars", []):
+                        if is_node(v.get("init")) and v["id"] not in assigned:
+                            self._defs[v["id"]] = v["init"]
+        return self._defs.get(ref.get("id"), ref)
 
     # ------------------------------------------------------------ hooks
     def on_node(self, n, st):
@@ -907,13 +932,13 @@ class Flow:
             return back, join(f, b), r
 
         cond_key = None
-        it_range = iterator_loop(s) if k == "For" else None
+        it_range = iterator_loop(s, self._single_def) if k == "For" else None
         if k == "RangeFor" or it_range is not None:
             if self._range_sized is None:
                 self._range_sized = range_sizes(self.fn.get("body"))
             sized = self._range_sized.get(id(s))
             # a range loop over a container that was just resized to n repeats n times: same canonical form as the counted loop
-            self.loop_stack.append(("repeat " + sized) if sized else ("each " + show(s["range"] if k == "RangeFor" else it_range)))
+            self.loop_stack.append(("repeat " + _re_idx.sub("[*]", sized)) if sized else ("each " + show(s["range"] if k == "RangeFor" else it_range)))
             if it_range is not None:
                 c0 = s["cond"]
                 if c0["k"] == "OpCall":
@@ -925,7 +950,9 @@ class Flow:
             if cnt is not None:
                 if self._expander is None:
                     self._expander = self.F.expander(self.fn)[0] if self.F is not None and hasattr(self.F, "expander") else show
-                self.loop_stack.append("repeat " + self._expander(cnt))
+                # an element selected by an enclosing loop's index (`lens[$i1]`) and the same element reached through a local
+                # copy or reference of it (`lens[*]`) are one bound
+                self.loop_stack.append("repeat " + _re_idx.sub("[*]", self._expander(cnt)))
                 cond_key = norm_cmp(s["cond"])[0]
             else:
                 self.loop_stack.append("while " + show(s["cond"]))
